@@ -497,8 +497,11 @@ def build_pt(spec, *, with_tags: bool = True, output_order=None, bind=None,
             # operations that return an input itself (roll by 0, real of a
             # real array, sum over no axes, ...) must not re-tag it: that
             # would create a second, different input of the same name
+            # (nor any other operand returned as is: tagging it would make a
+            # second array carrying the operand's unique / Named tags)
             import pytato as pt
-            if not isinstance(ary, pt.array.InputArgumentBase):
+            if not isinstance(ary, pt.array.InputArgumentBase) and not any(
+                    ary is e for e in env):
                 ary = apply_tags(ary, node["tags"])
         elif with_tags and node.get("tags"):
             ary = apply_tags(ary, node["tags"])
